@@ -498,3 +498,44 @@ func VerifPacketSocketGen(address string) int {
 	}
 	return pc.gen
 }
+
+// a failed Acquire (address in use) leaves no reference behind: a later Acquire works and its
+// Close releases the socket
+func VH_C12_acquire_failure() {
+	closes := 0
+	blocker, err := net.ListenTCP("tcp", &net.TCPAddr{IP: net.IPv4(127, 0, 0, 1), Port: 9301})
+	verifAssert("C12.acqfail.blocker", err == nil)
+	ms := NewMultiStreamListener("127.0.0.1:9301", func() error { closes++; return nil })
+	_, err = ms.Acquire()
+	verifAssert("C12.acqfail.stream-fails", err != nil)
+	blocker.Close()
+	h, err := ms.Acquire()
+	verifAssert("C12.acqfail.stream-then-works", err == nil)
+	if err == nil {
+		verifAssert("C12.acqfail.stream-close-ok", h.Close() == nil)
+		verifQuiesce()
+		verifAssert("C12.acqfail.stream-callback", closes == 1)
+		ln, err := net.ListenTCP("tcp", &net.TCPAddr{IP: net.IPv4(127, 0, 0, 1), Port: 9301})
+		verifAssert("C12.acqfail.stream-released", err == nil)
+		if err == nil {
+			ln.Close()
+		}
+	}
+	delete(verifBoundPC, "127.0.0.1:9000")
+	VerifOccupyPacket("127.0.0.1:9000")
+	pcloses := 0
+	mp := NewMultiPacketListener("127.0.0.1:9000", func() error { pcloses++; return nil })
+	_, err = mp.Acquire()
+	verifAssert("C12.acqfail.packet-fails", err != nil)
+	VerifReleasePacket("127.0.0.1:9000")
+	p, err := mp.Acquire()
+	verifAssert("C12.acqfail.packet-then-works", err == nil)
+	if err == nil {
+		pc := verifBoundPC["127.0.0.1:9000"]
+		verifAssert("C12.acqfail.packet-close-ok", p.Close() == nil)
+		verifQuiesce()
+		verifAssert("C12.acqfail.packet-released", pc.Closed() == 1 && pcloses == 1)
+	}
+	verifAssert("C12.acqfail.nothing-running", verifBlockedIn(verifAcceptLoop) == 0 && verifBlockedIn(verifReadLoop) == 0)
+	verifReach("C12.acqfail.done", true)
+}
